@@ -454,7 +454,18 @@ def _work(i):
         return {"key": _FAMILIES[i].key, "status": "error", "reason": f"worker: {type(e).__name__}: {e}", "goals": [], "wall_s": 0, "stats": {}}
 
 
+def _worker_loop(task_q, result_q):
+    while True:
+        i = task_q.get()
+        if i is None:
+            return
+        result_q.put(("start", i, os.getpid(), time.time()))
+        result_q.put(("done", i, _work(i)))
+
+
 def run_all(families, opts, procs=None, progress=None):
+    """own process pool with a watchdog: a worker stuck inside the solver beyond every budget (z3 does not
+    always honour its timeout) is killed, its family is reported inconclusive and a fresh worker starts"""
     global _FAMILIES, _OPTS
     _FAMILIES, _OPTS = families, opts
     procs = procs or min(16, os.cpu_count() or 4)
@@ -467,9 +478,74 @@ def run_all(families, opts, procs=None, progress=None):
                 progress(r)
         return results
     ctxm = multiprocessing.get_context("fork")
-    with ctxm.Pool(procs, maxtasksperchild=40) as pool:
-        for r in pool.imap_unordered(_work, range(len(families)), chunksize=1):
-            results.append(r)
-            if progress:
-                progress(r)
+    task_q, result_q = ctxm.Queue(), ctxm.Queue()
+    for i in range(len(families)):
+        task_q.put(i)
+    workers = {}
+
+    def spawn():
+        p = ctxm.Process(target=_worker_loop, args=(task_q, result_q), daemon=True)
+        p.start()
+        workers[p.pid] = p
+
+    for _ in range(min(procs, len(families))):
+        spawn()
+    running = {}  # pid -> (index, start time)
+    done = 0
+    n = len(families)
+    import queue as _queue
+
+    def limit(i):
+        f = families[i]
+        hard = f.hard_s or opts.get("hard_s", 300)
+        return (2 if getattr(f, "alt_fn", None) or getattr(f, "abstract", False) else 1) * hard + 90
+
+    while done < n:
+        try:
+            msg = result_q.get(timeout=5)
+        except _queue.Empty:
+            msg = None
+        if msg is not None:
+            if msg[0] == "start":
+                running[msg[2]] = (msg[1], msg[3])
+            else:
+                _, i, r = msg
+                for pid, (j, _t) in list(running.items()):
+                    if j == i:
+                        running.pop(pid, None)
+                results.append(r)
+                done += 1
+                if progress:
+                    progress(r)
+        now = time.time()
+        for pid, (i, t0) in list(running.items()):
+            if now - t0 > limit(i):
+                p = workers.pop(pid, None)
+                if p is not None:
+                    p.kill()
+                    p.join(5)
+                running.pop(pid, None)
+                r = {"key": families[i].key, "status": "inconclusive", "reason": f"worker killed by the watchdog after {int(now - t0)}s (solver did not return)", "goals": [], "wall_s": round(now - t0, 1), "stats": {}, "functions": list(families[i].functions)}
+                results.append(r)
+                done += 1
+                if progress:
+                    progress(r)
+                spawn()
+        # a worker that died without reporting (crash in native code)
+        for pid, p in list(workers.items()):
+            if not p.is_alive() and pid in running:
+                i, t0 = running.pop(pid)
+                workers.pop(pid, None)
+                r = {"key": families[i].key, "status": "inconclusive", "reason": "worker process died", "goals": [], "wall_s": round(now - t0, 1), "stats": {}, "functions": list(families[i].functions)}
+                results.append(r)
+                done += 1
+                if progress:
+                    progress(r)
+                spawn()
+    for _ in workers:
+        task_q.put(None)
+    for p in workers.values():
+        p.join(2)
+        if p.is_alive():
+            p.kill()
     return results
